@@ -38,7 +38,31 @@ def special_mod(m, rng, n_random=6):
     vals = [0, 1, 2, m - 1, m - 2, (m - 1) // 2, (m + 1) // 2, (1 << 32) - 1, (1 << 64) - 1, 1 << 64, (1 << 64) + 1,
             1 << 127, (1 << 128) - 1, 1 << 192, (1 << 192) - 1, 3, 5, 7]
     vals += [rng.randrange(m) for _ in range(n_random)]
+    vals += mont_special(m, rng)
     return [v % m for v in vals]
+
+
+def mont_special(m, rng, n=10):
+    """values whose INTERNAL representation (Montgomery form, radix 2^(64·limbs), the same integer in the 64- and the
+    32-bit backend) has structured 32-bit words: all ones, zero, one, a single high bit — the operands on which a carry or
+    borrow chain, a limb loop bound or a word-wise comparison goes wrong, and which are 2^-32-rare per word otherwise"""
+    nl = (m.bit_length() + 63) // 64
+    R = 1 << (64 * nl)
+    rinv = pow(R, -1, m)
+    words = 2 * nl
+    topw = m >> (32 * (words - 1))
+    out = []
+    pats = [[0xffffffff] * words, [0] + [0xffffffff] * (words - 1), [2] + [0xffffffff] * (words - 1), [0xffffffff] + [0] * (words - 1),
+            [1] + [0] * (words - 1), [0] * (words - 1) + [1], [0x80000000] * words]
+    while len(pats) < n + 4:
+        pats.append([rng.choice([0, 1, 0xffffffff, 0xfffffffe, 0x80000000, rng.getrandbits(32)]) for _ in range(words)])
+    for p in pats:
+        p = list(p)
+        p[-1] = p[-1] % max(1, topw)          # keep the integer below the modulus without disturbing the lower words
+        M_ = sum(w << (32 * i) for i, w in enumerate(p))
+        if M_ < m:
+            out.append(M_ * rinv % m)
+    return out[:n]
 
 
 def special_scalars(rng, n_random=6):
@@ -179,6 +203,10 @@ class ProgGen:
         out.append(('(r-1)*Q', ['A=dec:%s' % h32(s), 'E=mul:A,%s' % h32(r - 1)], 'E'))
         out.append(('-((r-1)*Q)', ['A=dec:%s' % h32(s), 'B=mul:A,%s' % h32(r - 1), 'E=neg:B'], 'E'))
         out.append(('P+Q-Q', ['A=dec:%s' % h32(s), 'B=dec:%s' % h32(s2), 'C=add:A,B', 'E=sub:C,B'], 'E'))
+        # Z = 1 and yet the non-canonical member of the coset: the negation of a freshly decoded point is (-x, y, 1, -t),
+        # while decoding its encoding gives (x, -y, 1, -t)
+        out.append(('neg-decoded', ['A=dec:%s' % h32(s), 'E=neg:A'], 'E'))
+        out.append(('neg-generator', ['A=gen', 'E=neg:A'], 'E'))
         # identity representatives
         out.append(('Q+(r-1)*Q', ['A=dec:%s' % h32(s), 'B=mul:A,%s' % h32(r - 1), 'E=add:A,B'], 'E'))
         out.append(('Q-Q', ['A=dec:%s' % h32(s), 'E=sub:A,A'], 'E'))
@@ -555,6 +583,29 @@ def gen_C06(rng, tier):
     for E in pg.base_elems():
         for f in AFF_FORMS_ARK:
             cases.append(Case(prog(E[1] + ['f=aff.%s:E' % f, 'valid:f', 'eq:E,f']), builds=('ark',), cls='conv:' + f, oracle=expect('valid 1'), nomodel=True))
+    # whole batches through normalize_batch / batch_convert_to_mul_base: every position, batches containing identities
+    # with Z != 1 (P - P, 0 * P), the 2-torsion representative, repeated entries, length 1
+    s1, s2 = h32(encs[2]), h32(encs[3])
+    pool = [('P', ['P=dec:%s' % s1]), ('Q', ['Q=dec:%s' % s2]), ('S', ['P=dec:%s' % s1, 'Q=dec:%s' % s2, 'S=add:P,Q']),
+            ('Z', ['P=dec:%s' % s1, 'Z=sub:P,P']), ('K', ['P=dec:%s' % s1, 'K=mul:P,%s' % h32(0)]),
+            ('T', ['G=gen', 'H=mul:G,%s' % h32(r - 1), 'T=add:G,H']), ('I', ['I=id']), ('D', ['Q=dec:%s' % s2, 'D=dbl:Q'])]
+    batches = [['P'], ['Z'], ['P', 'Z'], ['Z', 'P'], ['S', 'Z', 'D'], ['S', 'D', 'Z'], ['S', 'K', 'D', 'T'], ['D', 'T', 'S'], ['I', 'S', 'Z'], ['S', 'S', 'Z', 'S'],
+               ['P', 'Q', 'S', 'D']]
+    for _ in range(4 if tier == 'quick' else 40):
+        batches.append([rng.choice('PQSZKTID') for _ in range(rng.randrange(2, 7))])
+    pd = dict(pool)
+    for bt in batches:
+        stm = []
+        for name in bt:
+            for st_ in pd[name]:
+                if st_ not in stm:
+                    stm.append(st_)
+        for fop in ('nbat', 'bconv'):
+            outs = []
+            for i, name in enumerate(bt):
+                outs += ['R%d=%s.%d:%s' % (i, fop, i, ','.join(bt)), 'valid:R%d' % i, 'eq:R%d,%s' % (i, name)]
+            cases.append(Case(prog(stm + outs), builds=('ark',), cls='batch:%s:%d' % (fop, len(bt)),
+                              oracle=lambda out, bld: None if all(t in ('valid', '1') for t in out.split(' ')) else 'batch conversion handed out an invalid or different element'))
     # deserialisers
     for cls, b in near_misses(rng, encs[:4]):
         for f in ('deser_elem', 'deser_aff', 'try_slice'):
@@ -888,6 +939,11 @@ def gen_C12(rng, tier):
     for fld, (m, n8, nl) in M.MODS.items():
         H = lambda x, n8=n8: hN(x, n8)
         vs = special_mod(m, rng, 4)
+        # every unary operation on every special value (incl. the ones structured in the internal representation)
+        for a in vs:
+            cases.append(Case('f.%s.neg.%s %s' % (fld, rng.choice(['op', 'inh', 'in_place']), H(a)), cls='field:neg'))
+            cases.append(Case('f.%s.square.%s %s' % (fld, rng.choice(['inh', 'trait', 'in_place']), H(a)), cls='field:square'))
+            cases.append(Case('f.%s.double.%s %s' % (fld, rng.choice(['trait', 'in_place']), H(a)), cls='field:double'))
         for _ in range(30 if tier == 'quick' else 300):
             a, b = rng.choice(vs + [rng.randrange(m)]), rng.choice(vs + [rng.randrange(m)])
             op = rng.choice(['add', 'sub', 'mul', 'div'])
